@@ -1,49 +1,71 @@
 """C11 — adding files versions exactly the intended paths.
 
 Mechanism: breezy/bzr/inventorytree.py (_SmartAddHelper.add, _add_one_and_parent,
-_gather_dirs_to_add), breezy/add.py (AddAction.skip_file, default: never),
+_gather_dirs_to_add), breezy/add.py (AddAction.skip_file, AddWithSkipLargeAction),
 breezy/git/workingtree.py (GitWorkingTree.smart_add).
 
 T2: the layouts of the C46 check (versioned / unknown / ignored files and
     directories, nested .bzr/.git control directories at several depths, fake
     control names, links) plus recorded text / contents conflicts with their
-    helper files are materialised in real 2a and git trees; every flag of every
-    entry (kind, versioned, is_ignored, recognised control dir, conflict helper)
-    is read back from the real tree.  For every single named path of the
-    layout (and the tree root) and sampled pairs, with recurse on and off, the
-    real smart_add runs on a fresh copy and the set of newly versioned paths
-    is compared with the Lean model `smartAdd`; ~10 % of the cases name a
-    missing path or a path in the control directory and are compared on the
-    error kind.
+    helper files, ignored directories, prefix-named sibling directories, nested
+    directory chains (with and without a nested tree on the way), big files and
+    in-tree directory links are materialised in real 2a and git trees; every
+    flag of every entry (kind, versioned, is_ignored, recognised control dir,
+    conflict helper) is read back from the real tree.  For every single named
+    path of the layout (and the tree root), sampled pairs, and triples /
+    quadruples of named paths nested in each other (the `prev_dir` rule of
+    _gather_dirs_to_add is part of the model: any number of names), with
+    recurse on and off, the real smart_add runs on a fresh copy and the set of
+    newly versioned paths is compared with the Lean model `smartAdd`; ~10 % of
+    the cases name a missing path or a path in the control directory and are
+    compared on the error kind.  A third of the recursive cases run with an
+    action whose skip_file skips something: the real AddWithSkipLargeAction
+    (size limit between the small and the big files) or a custom AddAction
+    skipping by base name (files and directories); the model gets the set of
+    paths for which the real action object answers True.  Names that go through
+    a symbolic link to a directory of the tree (`lnk/x`) are passed raw to the
+    real code and, resolved the way osutils.normalizepath does, to the model.
 Oracle (independent of the model, from the statement): let N = named paths.
     Every named path is versioned afterwards (bzr: with all its parents; git:
     files and links - directories are not index entries); every newly versioned
     path is a named path / parent of one, or (recursing) lies below a named
     directory D with: itself not ignored, not a conflict helper, not a control
-    directory, not a nested tree, and every directory strictly between D and
-    it not ignored-and-unversioned (git: not ignored), not a nested tree, not a
-    helper; D itself not a nested tree / helper.  Conversely every such
-    descendant is versioned afterwards.  Nothing versioned before is lost.
-    A named control file must be refused.
-
-    The same call repeated versions nothing more (idempotence, observed only).
+    directory, not a nested tree, not skipped by the action, and every
+    directory strictly between D and it not ignored-and-unversioned (git: not
+    ignored), not a nested tree, not a helper, not skipped; D itself not a
+    nested tree / helper.  Conversely every such descendant is versioned
+    afterwards.  Nothing versioned before is lost.  A named control file must
+    be refused.  A call whose named paths all exist and are not control files
+    must not raise.
+    The same call repeated versions nothing more (idempotence: proved for the
+    model - smartAdd_idempotent - and observed on the real code).
+    Stale-kind stream (oracle only, no model line): a versioned file replaced
+    on disk by a directory with content, and a versioned directory replaced by
+    a file, then add of the root / the path / a path below it.
 
 Found by this check: GitWorkingTree.smart_add versioned an explicitly named file inside .git
     (repaired in /repo, fix: 31d8912; not classified any more - a recurrence is a plain VIOLATION;
     the model keeps the flag `gitRefusesCtl`, probed by `git_fmt_char`).
-Known finding (family computed from the failing case, committed in known_findings.json):
-    bzr-named-dir-below-blocked-named-dir: `add D0 D` with D inside D0 and a nested tree or
-      conflict helper between them: D is dropped from the scan list and never scanned.
+Findings (family computed from the failing case):
+    bzr-named-dir-below-blocked-named-dir (known, committed): `add D0 D` with D inside D0 and a nested
+      tree or conflict helper between them: D is dropped from the scan list and never scanned.  With
+      three or more names the same family covers `add a a/n/d a/n/e` (a/n/d dropped, a/n/e scanned).
+    git-smart-add-ignores-skip-file (new): GitWorkingTree.smart_add never calls action.skip_file, so
+      `brz add` in a git tree adds files larger than add.maximum_file_size.
+    bzr-stale-kind-dir-not-scanned (new): a versioned *file* that is a directory on disk is visited
+      with the inventory kind, so `add`/`add k` does not descend into it.
+    bzr-stale-kind-listdir-crash (new): a versioned *directory* that is a file on disk is visited
+      with the inventory kind: os.listdir raises NotADirectoryError out of smart_add.
 SCENARIOS pins layouts every seed must cover (ignored directory whose files are not themselves
-ignored in a git and a bzr tree; helper files; nested trees; a named control file).
+ignored in a git and a bzr tree; helper files; nested trees; a named control file; prefix-named
+siblings; nested named chains).
 
 Mutants this was built against (scratch worktree; caught by the oracle with a concrete case):
   m1 bzr walk: ignored *directories* no longer skipped (`and not isdir`)      -> needs an ignored dir with content
   m2 bzr walk: conflict-helper test only for directories (helper files added)
   m3 bzr walk: sub_tree true only for unversioned, un-named directories (nested trees entered)
   m4 git walk: ignore test after the directory test (ignored directories entered)
-     -> needs an ignored directory whose files are not themselves ignored (`old~/a`); seed dependent
-        before the ignored-directory scenario was added to the generator, caught with seeds 0 and 2 now
+     -> needs an ignored directory whose files are not themselves ignored (`old~/a`)
   m5 bzr phase 1: named ignored files skipped
   m6 git walk: conflict-helper test not applied to files
   h1 harmless: set comprehension for conflicts_related, inverted if/else with continue (clean)
@@ -51,10 +73,26 @@ Mutants this was built against (scratch worktree; caught by the oracle with a co
   s1 seeded: _gather_dirs_to_add uses `path.startswith(prev_dir)` - needs two named sibling directories,
      one name a string prefix of the other (doc/docs, lib/lib64, src/src-old); covered on every seed by
      the pinned scenario + corpus/C11/prefix-sibling-named-dirs.json and by generated prefix families
-     (pd, pd2, pd-x, pdd ...) named in pairs in both orders and in triples
+  improvement round (any number of names, skip_file, conversion order; dev runs with 4 random layouts per format):
+  m7 _gather_dirs_to_add: `prev_dir = path` only when yielded (the "obvious" repair of the quirk): plain
+     VIOLATION (`add a a/h/d a/h/e`: a/h/e/y missing; the family of the known finding is withdrawn because the
+     real result differs from the model of the code as it was) + 19 T2 mismatches
+  m8 bzr walk: skip_file consulted only for `this_ie is None` (versioned directories never skipped): plain
+     VIOLATION (pinned call `add .` with an action skipping the versioned directory lib: lib/new versioned)
+  m9 bzr walk: skip_file result ignored for directories: plain VIOLATION (a/b/... versioned although skipped)
+  m10 AddWithSkipLargeAction: `>=` instead of `>`: plain VIOLATION (file of exactly the limit skipped; the
+     independent rule for the large-file action)
+  m11 _get_ie ignores the pending delta: plain VIOLATION (InconsistentDelta raised for `add a a/h/d a/h/e`)
+  m12 _add_one_and_parent: parent entry never converted to a directory: plain VIOLATION (InconsistentDelta for
+     `add k/inner` with k a versioned file that is a directory now) + T2 mismatches on the conversion-order corpus case
+  h2 harmless: osutils.is_inside(prev_dir, path) instead of is_inside_or_parent_of_any([prev_dir], path) (clean)
+  both proposed patches applied (git skip_file, bzr stale kind): clean except the known family; the probe
+     selects the model variant `Hs`
 """
+import collections
 import itertools
 import os
+import random
 import shutil
 
 from vlib import env
@@ -62,28 +100,40 @@ from checks import c46
 
 THEOREMS = [
     "smartAdd_ok", "smartAdd_error", "pass_shape", "add_exact", "versioned_untouched", "add_named",
-    "add_named_git", "walk_child_exact", "idle_child_exact", "add_nothing_else",
-    "git_named_control_file_witness", "bzr_named_dir_below_blocked_witness",
+    "add_named_git", "step_flag_exact", "step_mode_exact", "walk_reaches_iff", "add_recursive_exact",
+    "add_nothing_else", "git_dir_flag_unchanged", "git_dir_flags_irrelevant", "smartAdd_idempotent",
+    "git_named_control_file_witness", "bzr_named_dir_below_blocked_witness", "bzr_prev_dir_witness",
+    "bzr_tree_reference_order_witness",
 ]
-RULE = ("case = (format, layout, named paths (<= 2, or the root), recurse); all single named paths of every layout "
-        "are enumerated with recurse on and off, pairs are sampled; non-trivial = something becomes versioned and "
-        "something unversioned stays unversioned; distinct by (format, layout with flags, names, recurse)")
+RULE = ("case = (format, layout, named paths (any number, or the root), recurse, action); all single named paths of "
+        "every layout are enumerated with recurse on and off, pairs, nested triples and quadruples are sampled; a "
+        "third of the recursive cases use an action that skips; non-trivial = something becomes versioned and "
+        "something unversioned stays unversioned; distinct by (format, layout with flags, names, recurse, action)")
 ASSUMPTIONS = [
-    "at most two named paths per call, or three sibling directories (with three or more names of which one lies "
-    "inside another, _gather_dirs_to_add's prev_dir test can scan the inner directory a second time; the model "
-    "scans it once)",
-    "default AddAction (skip_file never skips); versioned entries have the same kind on disk as in the inventory",
+    "T2: versioned entries have the same kind on disk as in the inventory (the stale-kind stream runs the oracle "
+    "only; its two defect families are reported as findings)",
     "tree.is_ignored is a parameter (C48) read from the real tree; ControlDirFormat.find_format(dir) succeeds iff "
-    "dir holds a recognised .bzr/.git entry (as checked by C46 on the same layouts)",
+    "dir holds a recognised .bzr/.git entry (checked on every directory of every layout); action.skip_file is a "
+    "parameter: the set of paths for which the real action object answers True",
 ]
-TRUSTED = ["the layout forest of Model/C46.lean; names are ASCII/NFC, no case-insensitive file system"]
+TRUSTED = ["the layout forest of Model/C46.lean; names are ASCII/NFC, no case-insensitive file system; "
+           "Python's str order = Lean's String order (code points) for sorted(user_dirs)"]
+
+BIG = 5000            # bytes of a "big" file; the size limit of the large-file action lies below
+LIMIT = 1000
 
 
 def add_conflicts_to_spec(rng, spec):
-    """extend a C46 layout with recorded conflicts and their helper files"""
+    """extend a C46 layout with recorded conflicts and their helper files, ignored directories,
+    prefix-named siblings, nested chains, big files, in-tree directory links"""
     spec = dict(spec, entries=[list(e) for e in spec["entries"]], conflicts=[])
     used = set(e[0] for e in spec["entries"])
     dirs = [""] + [e[0] for e in spec["entries"] if e[1] == "d"]
+    git = spec["fmt"] == "git"
+
+    def versioned_dir(d):
+        return d == "" or next((e[2] for e in spec["entries"] if e[0] == d), False) or git
+
     if rng.random() < 0.45:
         # an ignored directory (user ignore `*~`, or a rule of the tree) with plain files in it,
         # optionally with one versioned file (so that the directory itself is / counts as versioned)
@@ -96,9 +146,8 @@ def add_conflicts_to_spec(rng, spec):
                 spec["rules"] = spec["rules"] + ["build"]
             if name == "ig" and "ig/" not in spec["rules"]:
                 spec["rules"] = spec["rules"] + ["ig/"]
-            pv = d == "" or next(e[2] for e in spec["entries"] if e[0] == d) or spec["fmt"] == "git"
-            v = pv and rng.random() < 0.4
-            spec["entries"].append([p, "d", bool(v and spec["fmt"] != "git")])
+            v = versioned_dir(d) and rng.random() < 0.4
+            spec["entries"].append([p, "d", bool(v and not git)])
             spec["entries"].append([p + "/a", "f", bool(v)])
             spec["entries"].append([p + "/README", "f", False])
             spec["entries"].append([p + "/s", "d", False])
@@ -110,7 +159,7 @@ def add_conflicts_to_spec(rng, spec):
         # being its parent (_gather_dirs_to_add compares sorted neighbours)
         d = rng.choice(dirs)
         pre = d + "/" if d else ""
-        pv = d == "" or next((e[2] for e in spec["entries"] if e[0] == d), False) or spec["fmt"] == "git"
+        pv = versioned_dir(d)
         fam = rng.choice([["pd", "pd2", "pd-x", "pdd"], ["doc", "docs"], ["lib", "lib64", "lib.old"], ["src", "src-old"]])
         group = []
         for name in fam:
@@ -119,7 +168,7 @@ def add_conflicts_to_spec(rng, spec):
                 continue
             used.add(p)
             group.append(p)
-            spec["entries"].append([p, "d", bool(pv and spec["fmt"] != "git" and rng.random() < 0.3)])
+            spec["entries"].append([p, "d", bool(pv and not git and rng.random() < 0.3)])
             for fn in rng.sample(["guide.txt", "a", "c.o", "x~"], rng.randint(1, 2)):
                 spec["entries"].append([p + "/" + fn, "f", False])
                 used.add(p + "/" + fn)
@@ -128,6 +177,54 @@ def add_conflicts_to_spec(rng, spec):
                 spec["entries"].append([p + "/s/b.txt", "f", False])
                 used.update([p + "/s", p + "/s/b.txt"])
         spec["prefix_group"] = group
+    if rng.random() < 0.6:
+        # a chain of directories to be named together: ch, ch/in1, ch/in1/deep, ch/in2, ch-x (sorts between
+        # `ch` and `ch/...`), optionally ch/nt = nested tree / conflict helper with ch/nt/d1, ch/nt/d2 below
+        d = rng.choice(dirs)
+        pre = d + "/" if d else ""
+        ch = pre + rng.choice(["ch", "t"])
+        if ch not in used and not any(e[0].startswith(ch + "/") or e[0].startswith(ch + "-") for e in spec["entries"]):
+            pv = versioned_dir(d)
+            chain = []
+
+            def put(path, typ, v=False):
+                if path not in used:
+                    used.add(path)
+                    spec["entries"].append([path, typ, bool(v)])
+
+            v0 = pv and not git and rng.random() < 0.3
+            put(ch, "d", v0)
+            chain.append(ch)
+            for sub in ("in1", "in2"):
+                put(ch + "/" + sub, "d", v0 and rng.random() < 0.3)
+                chain.append(ch + "/" + sub)
+                put(ch + "/" + sub + "/" + rng.choice(["a", "b.txt", "c.o"]), "f")
+            put(ch + "/in1/deep", "d")
+            put(ch + "/in1/deep/x", "f")
+            chain.append(ch + "/in1/deep")
+            put(ch + "/top", "f")
+            if rng.random() < 0.6:
+                put(ch + "-x", "d")
+                put(ch + "-x/y", "f")
+                chain.append(ch + "-x")
+            r = rng.random()
+            if r < 0.5:
+                # blocked on the way: a nested tree (or, bzr, an ignored unversioned directory)
+                put(ch + "/nt", "d")
+                ctl = rng.choice([(".git", "G"), (".bzr", "B")])
+                put(ch + "/nt/" + ctl[0], ctl[1])
+                for sub in ("d1", "d2"):
+                    put(ch + "/nt/" + sub, "d")
+                    put(ch + "/nt/" + sub + "/f", "f")
+                    chain.append(ch + "/nt/" + sub)
+            elif r < 0.75:
+                put(ch + "/old~", "d")
+                for sub in ("d1", "d2"):
+                    put(ch + "/old~/" + sub, "d")
+                    put(ch + "/old~/" + sub + "/f", "f")
+                    chain.append(ch + "/old~/" + sub)
+            spec["chain_group"] = chain
+            dirs.append(ch)
     for _ in range(rng.choice([0, 1, 1, 2])):
         d = rng.choice(dirs)
         pre = d + "/" if d else ""
@@ -135,7 +232,7 @@ def add_conflicts_to_spec(rng, spec):
         if base in used:
             continue
         kind = rng.choice(["text", "text", "contents"])
-        dv = d == "" or next(e[2] for e in spec["entries"] if e[0] == d) or spec["fmt"] == "git"
+        dv = versioned_dir(d)
         spec["entries"].append([base, "f", bool(dv)])
         used.add(base)
         for suf in (".THIS", ".BASE", ".OTHER"):
@@ -150,11 +247,58 @@ def add_conflicts_to_spec(rng, spec):
             else:
                 spec["entries"].append([p, "f", dv and rng.random() < 0.2])
         spec["conflicts"].append([kind, base])
+    # big files (for the size limit of AddWithSkipLargeAction): some unversioned plain files
+    files = [e[0] for e in spec["entries"] if e[1] == "f" and "/." not in "/" + e[0]]
+    spec["big"] = sorted(rng.sample(files, min(len(files), rng.randint(1, 3)))) if files else []
+    # a symbolic link to a directory of the tree (named paths may go through it)
+    spec["links"] = []
+    real_dirs = [e[0] for e in spec["entries"] if e[1] == "d" and "/." not in "/" + e[0]]
+    if real_dirs and rng.random() < 0.4:
+        tgt = rng.choice(real_dirs)
+        d = rng.choice([""] + [x for x in real_dirs if not (x == tgt or x.startswith(tgt + "/"))])
+        lp = (d + "/" if d else "") + "ln"
+        if lp not in used:
+            used.add(lp)
+            spec["links"].append([lp, tgt])
     return spec
+
+
+def stale_spec(rng, fmt, how):
+    """oracle-only layouts: a versioned file that is a directory on disk / a versioned directory that is a file"""
+    entries = [["v", "f", True], ["u", "f", False], ["p", "d", fmt != "git"], ["p/w", "f", True]]
+    pre = rng.choice(["", "p/"])
+    if how == "f2d":
+        entries += [[pre + "k", "f", True]]
+    else:
+        entries += [[pre + "k", "d", fmt != "git"], [pre + "k/x", "f", True], [pre + "k/y", "f", False]]
+    return dict(fmt=fmt, entries=entries, rules=rng.choice([[], ["*.o"]]), ignore_versioned=False, conflicts=[],
+                stale=[[pre + "k", how]], big=[], links=[])
 
 
 def materialise(spec, root, outside):
     wt = c46.materialise(spec, root, outside)
+    for n, path in enumerate(spec.get("big", [])):
+        full = os.path.join(root, path)
+        if os.path.isfile(full) and not os.path.islink(full):
+            with open(full, "w") as f:
+                # sizes around the limit: just above, far above, exactly the limit (not skipped)
+                f.write("x" * [LIMIT + 1, BIG, LIMIT][n % 3])
+    for lp, tgt in spec.get("links", []):
+        full = os.path.join(root, lp)
+        if not os.path.lexists(full) and os.path.isdir(os.path.dirname(full)):
+            os.symlink(os.path.relpath(os.path.join(root, tgt), os.path.dirname(full)), full)
+    for path, how in spec.get("stale", []):
+        full = os.path.join(root, path)
+        if how == "f2d":
+            os.unlink(full)
+            os.makedirs(os.path.join(full, "sub"))
+            for rel in ("inner", "sub/deep"):
+                with open(os.path.join(full, rel), "w") as f:
+                    f.write("new\n")
+        else:
+            shutil.rmtree(full)
+            with open(full, "w") as f:
+                f.write("now a file\n")
     if spec.get("conflicts"):
         if spec["fmt"] == "2a":
             from breezy.bzr.conflicts import ContentsConflict, TextConflict
@@ -167,9 +311,8 @@ def materialise(spec, root, outside):
             wt.add_conflicts(cs)
         except Exception:      # noqa  (git refuses some; the flags are read back anyway)
             pass
-        from breezy.workingtree import WorkingTree
-        wt = WorkingTree.open(root)
-    return wt
+    from breezy.workingtree import WorkingTree
+    return WorkingTree.open(root)
 
 
 def valid_for_add(root, rel, kind):
@@ -226,13 +369,60 @@ def versioned_set(wt, snap, fmt):
     return out
 
 
-def run_real(root, names, recurse):
+KINDNAME = {"f": "file", "d": "directory", "l": "symlink", "D": "symlink"}
+
+
+def make_action(act):
+    """act = None | ["large", limit] | ["names", [base names]] -> an AddAction (a fresh object per call)"""
+    from breezy import add as _add
+    if act is None:
+        return None
+    if act[0] == "large":
+        a = _add.AddWithSkipLargeAction(should_print=False)
+        a._max_size = act[1]           # what the real class reads from the option add.maximum_file_size
+        return a
+    names = frozenset(act[1])
+
+    class SkipByName(_add.AddAction):
+        def skip_file(self, tree, path, kind, stat_value=None):
+            return os.path.basename(path) in names
+    return SkipByName(should_print=False)
+
+
+def skip_set(root, info, act, viol=None):
+    """the paths for which the real action object's skip_file answers True.  For the large-file
+    action the answer is also compared with the documented rule (a regular file larger than the
+    limit; `brz help add`), independently of the model."""
+    if act is None:
+        return set()
+    from breezy.workingtree import WorkingTree
+    wt = WorkingTree.open(root)
+    a = make_action(act)
+    out = set()
+    for rel, row in info.items():
+        full = os.path.join(root, rel)
+        try:
+            ans = bool(a.skip_file(wt, full, KINDNAME[row[1]], None))
+        except OSError:
+            continue
+        if ans:
+            out.add(rel)
+        if act[0] == "large" and viol is not None:
+            want = row[1] == "f" and os.path.getsize(full) > act[1] > 0
+            if ans != want:
+                viol.append(("AddWithSkipLargeAction.skip_file(%r: kind %s, %d bytes; limit %d) = %r"
+                             % (rel, KINDNAME[row[1]], os.lstat(full).st_size, act[1], ans), None))
+    return out
+
+
+def run_real(root, names, recurse, act=None):
     from breezy import errors
     from breezy.transport import NoSuchFile
     from breezy.workingtree import WorkingTree
     wt = WorkingTree.open(root)
     try:
-        wt.smart_add([os.path.join(root, n) if n != "." else root for n in names], recurse=recurse)
+        wt.smart_add([os.path.join(root, n) if n != "." else root for n in names], recurse=recurse,
+                     action=make_action(act))
     except errors.ForbiddenControlFileError:
         return "E:ForbiddenControlFile"
     except NoSuchFile:
@@ -246,13 +436,23 @@ _GITMODE = []
 
 
 def git_fmt_char():
-    """'G': GitWorkingTree.smart_add versions an explicitly named control file (as found);
-    'H': it refuses with ForbiddenControlFileError (repaired) — probed on an empty git tree"""
+    """first char 'G': GitWorkingTree.smart_add versions an explicitly named control file (as first found);
+    'H': it refuses with ForbiddenControlFileError (repaired); suffix 's': it calls action.skip_file
+    (the code as found does not: finding git-smart-add-ignores-skip-file) - probed on an empty git tree"""
     if not _GITMODE:
+        from breezy.workingtree import WorkingTree
         base = env.fresh_dir("c11probe")
         root = os.path.join(base, "P")
         shutil.copytree(c46._templates()["git"], root, symlinks=True)
-        _GITMODE.append("H" if run_real(root, [".git/HEAD"], False) == "E:ForbiddenControlFile" else "G")
+        mode = "H" if run_real(root, [".git/HEAD"], False) == "E:ForbiddenControlFile" else "G"
+        with open(os.path.join(root, "probe"), "w") as f:
+            f.write("x\n")
+        run_real(root, ["."], True, ["names", ["probe"]])
+        wt = WorkingTree.open(root)
+        with wt.lock_read():
+            if not wt.is_versioned("probe"):
+                mode += "s"
+        _GITMODE.append(mode)
         shutil.rmtree(base, ignore_errors=True)
     return _GITMODE[0]
 
@@ -266,7 +466,21 @@ def parents(p):
     return ["/".join(parts[:k]) for k in range(1, len(parts))]
 
 
-def expected_by_statement(fmt, info, nroots, own_ctl, names, recurse, before):
+def canonical_name(root, n):
+    """what osutils.normalizepath + canonical_relpaths make of a named path: links in the directory
+    part are resolved, the last component is left alone; None if that leaves the tree"""
+    if n == ".":
+        return "."
+    full = os.path.join(root, n)
+    d = os.path.realpath(os.path.dirname(full))
+    rroot = os.path.realpath(root)
+    if d != rroot and not d.startswith(rroot + os.sep):
+        return None
+    rel = os.path.relpath(os.path.join(d, os.path.basename(full)), rroot)
+    return rel
+
+
+def expected_by_statement(fmt, info, nroots, own_ctl, names, recurse, skip=frozenset()):
     """the set the statement asks for, computed without the model"""
     git = fmt == "git"
     must = set()
@@ -289,6 +503,8 @@ def expected_by_statement(fmt, info, nroots, own_ctl, names, recurse, before):
                 return True                      # nested tree
             if h and not git:
                 return True                      # conflict helper (git: helper test is for files only)
+            if d in skip:
+                return True                      # the action skips it
             if named:
                 return False
             v = v or d in must
@@ -309,7 +525,7 @@ def expected_by_statement(fmt, info, nroots, own_ctl, names, recurse, before):
                     continue
                 _rel, k, v, ig, _va, h = info[q]
                 v = v or q in must
-                if h:
+                if h or q in skip:
                     continue
                 if ig and (git or not v):
                     continue
@@ -320,12 +536,135 @@ def expected_by_statement(fmt, info, nroots, own_ctl, names, recurse, before):
     return must
 
 
-def run_layout(ctx, spec, viol, cases, lines, outs, choices=None):
+def gen_choices(rng, spec, snap, own_ctl, root, thorough):
+    """[(names, recurse, act, kind)]"""
+    fmt = spec["fmt"]
+    cands = [e[0] for e in spec["entries"] if e[0] in snap and not e[0].startswith(own_ctl + "/")]
+    cands += [l[0] for l in spec.get("links", []) if l[0] in snap]
+    inner = [p for p in snap if "/.bzr/" in p or "/.git/" in p]
+    if inner:
+        cands.append(rng.choice(sorted(inner)))
+    choices = [(["."], True, None, "root"), (["."], False, None, "root")]
+    singles = cands if thorough or len(cands) <= 14 else rng.sample(cands, 14)
+    for cnd in singles:
+        choices.append(([cnd], True, None, "single"))
+        if rng.random() < 0.35:
+            choices.append(([cnd], False, None, "single"))
+    for _ in range(min(8, len(cands))):
+        a, b = rng.choice(cands), rng.choice(cands + ["."])
+        if a != b:
+            choices.append(([a, b], rng.random() < 0.8, None, "pair"))
+    group = [g for g in spec.get("prefix_group", []) if g in snap]
+    pairs = list(itertools.permutations(group, 2))
+    if len(pairs) > 6 and not thorough:
+        srt = sorted(group)
+        pairs = [p for k in range(len(srt) - 1) for p in ((srt[k], srt[k + 1]), (srt[k + 1], srt[k]))]
+    for a, b in pairs:
+        choices.append(([a, b], True, None, "prefix"))
+    if len(group) >= 3:
+        tri = group[:3]
+        choices.append((tri, True, None, "prefix"))
+        choices.append((tri[::-1], True, None, "prefix"))
+    # three and four named paths nested in each other (any order): _gather_dirs_to_add compares sorted neighbours
+    dirs = [c for c in cands if snap.get(c) == "d"]
+    chain = [g for g in spec.get("chain_group", []) if g in snap]
+    for _ in range(6 if chain else 0):
+        k = rng.choice([3, 3, 4])
+        if len(chain) >= k:
+            names = rng.sample(chain, k)
+            if rng.random() < 0.3:
+                names[rng.randrange(k)] = "."
+            choices.append((names, True, None, "nested"))
+    nested_pairs = [(a, b) for a in dirs for b in cands if b != a and under(a, b)]
+    for _ in range(min(5, len(nested_pairs))):
+        a, b = rng.choice(nested_pairs)
+        below = [c for c in cands if c not in (a, b) and under(a, c)] or cands
+        third = rng.choice(below + ["."])
+        names = [a, b, third]
+        if rng.random() < 0.3 and len(cands) > 3:
+            names.append(rng.choice(cands))
+        rng.shuffle(names)
+        if len(set(names)) == len(names):
+            choices.append((names, rng.random() < 0.9, None, "nested"))
+    # names that go through a directory link of the tree
+    for lp, tgt in spec.get("links", []):
+        if snap.get(lp) != "D":
+            continue
+        kids = sorted(p for p in snap if p.startswith(tgt + "/") and "/" not in p[len(tgt) + 1:])
+        for kid in rng.sample(kids, min(2, len(kids))):
+            choices.append(([lp + "/" + kid[len(tgt) + 1:]], True, None, "via-link"))
+    li = [e[0] for e in spec["entries"] if e[1] == "Li" and snap.get(e[0]) == "D"]
+    for lp in li[:1]:
+        top = sorted(p for p in snap if "/" not in p and p != own_ctl and p != lp)
+        for kid in rng.sample(top, min(2, len(top))):
+            choices.append(([lp + "/" + kid], rng.random() < 0.7, None, "via-link"))
+    # actions that skip: a third of the recursive calls once more with the real large-file action or a
+    # custom action skipping by base name (files and directories)
+    bases = sorted(set(p.rsplit("/", 1)[-1] for p in snap if not p.startswith(own_ctl)))
+    rec = [c for c in choices if c[1]]
+    for names, _r, _a, kind in rng.sample(rec, max(2, len(rec) // 4)):
+        if rng.random() < 0.5:
+            act = ["large", LIMIT]
+        else:
+            act = ["names", sorted(rng.sample(bases, min(len(bases), rng.randint(1, 3))))]
+        choices.append((names, True, act, kind + "+skip"))
+    # malformed stream: missing paths and control files
+    for _ in range(max(1, len(choices) // 10)):
+        bad = rng.choice(["nope", "d/nope", own_ctl + "/" + ("README" if fmt == "2a" else "HEAD"), own_ctl])
+        other = [rng.choice(cands)] if cands and rng.random() < 0.5 else []
+        names = other + [bad] if rng.random() < 0.5 else [bad] + other
+        choices.append((names, rng.random() < 0.5, None, "malformed"))
+    return choices
+
+
+def stale_choices(spec):
+    path = spec["stale"][0][0]
+    out = [(["."], True), ([path], True), ([path], False)]
+    if spec["stale"][0][1] == "f2d":
+        out += [([path + "/inner"], True), ([".", path + "/inner"], True), ([path + "/inner", "."], True),
+                ([path + "/sub"], True)]
+    if "/" in path:
+        out.append(([path.rsplit("/", 1)[0]], True))
+    return [(n, r, None, "stale") for n, r in out]
+
+
+def classify_missing(fmt, names, info, nroots, missing, stale, skip=frozenset()):
+    """family of a `not versioned although the statement asks for it` failure"""
+    if stale and fmt == "2a" and all(any(how == "f2d" and under(sp, x) and x != sp for sp, how in stale) for x in missing):
+        return "bzr-stale-kind-dir-not-scanned"
+    if fmt == "2a" and len(names) >= 2:
+        # a named directory D below another named directory D0, with a nested tree, a conflict helper or a
+        # directory the action skips on the way from D0 down to D (D excluded): _gather_dirs_to_add drops D
+        # (the named directory before it in sorted order is one of its ancestors) and no walk reaches it
+        def dropped_and_blocked(x):
+            for d in names:
+                if d == "." or not under(d, x):
+                    continue
+                for d0 in names:
+                    if d == d0 or not under("" if d0 == "." else d0, d):
+                        continue
+                    d0p = "" if d0 == "." else d0
+                    way = [m for m in [d0p] + parents(d) if m != "" and under(d0p, m) and m != d]
+                    if any(m in nroots or info[m][5] or m in skip for m in way):
+                        return True
+            return False
+        if all(dropped_and_blocked(x) for x in missing):
+            return "bzr-named-dir-below-blocked-named-dir"
+    return None
+
+
+def run_layout(job):
+    """materialise one layout, run every call on a fresh copy; returns JSON-able records (runs in a pool worker)"""
+    spec, choices, gitmode, thorough = job["spec"], job.get("choices"), job["gitmode"], job["thorough"]
+    rng = random.Random(repr(("c11", job["seed"], job["idx"])))
     fmt = spec["fmt"]
     own_ctl = c46._ctlname(fmt)
+    stale = spec.get("stale") or []
     base = env.fresh_dir("c11")
     root = os.path.join(base, "P")
     outside = os.path.join(base, "outside")
+    counts = collections.Counter()
+    records, mism = [], []
     wt = materialise(spec, root, outside)
     snap = c46.snapshot(root, own_ctl)
     # one real file of the tree's own control directory, so that it can be named
@@ -340,47 +679,37 @@ def run_layout(ctx, spec, viol, cases, lines, outs, choices=None):
     derived = sorted(d for d, k in snap.items() if k == "d" and any(
         (d + "/" + c) in info and info[d + "/" + c][4] for c in (".bzr", ".git")))
     if derived != nroots:
-        ctx.mismatch(dict(spec=spec, assumption="find_format"), "nested trees %r" % nroots,
-                     "derived from flags %r" % derived, tie="T2 assumption: find_format")
+        mism.append((dict(spec=spec, assumption="find_format"), "nested trees %r" % nroots,
+                     "derived from flags %r" % derived, "T2 assumption: find_format"))
     before = versioned_set(wt, snap, fmt)
     if choices is None:
-        cands = [e[0] for e in spec["entries"] if e[0] in snap and not e[0].startswith(own_ctl + "/")]
-        inner = [p for p in snap if "/.bzr/" in p or "/.git/" in p]
-        if inner:
-            cands.append(ctx.rng.choice(sorted(inner)))
-        choices = [(["."], True), (["."], False)]
-        for cnd in cands:
-            choices.append(([cnd], True))
-            if ctx.rng.random() < 0.5:
-                choices.append(([cnd], False))
-        for _ in range(min(8, len(cands))):
-            a, b = ctx.rng.choice(cands), ctx.rng.choice(cands + ["."])
-            if a != b:
-                choices.append(([a, b], ctx.rng.random() < 0.8))
-        group = [g for g in spec.get("prefix_group", []) if g in snap]
-        pairs = list(itertools.permutations(group, 2))
-        if len(pairs) > 6 and not ctx.thorough():
-            srt = sorted(group)
-            pairs = [p for k in range(len(srt) - 1) for p in ((srt[k], srt[k + 1]), (srt[k + 1], srt[k]))]
-        for a, b in pairs:
-            choices.append(([a, b], True))
-        if len(group) >= 3:
-            tri = group[:3]
-            choices.append((tri, True))
-            choices.append((tri[::-1], True))
-        # malformed stream: missing paths and control files
-        for _ in range(max(1, len(choices) // 10)):
-            bad = ctx.rng.choice(["nope", "d/nope", own_ctl + "/" + ("README" if fmt == "2a" else "HEAD"), own_ctl])
-            other = [ctx.rng.choice(cands)] if cands and ctx.rng.random() < 0.5 else []
-            names = other + [bad] if ctx.rng.random() < 0.5 else [bad] + other
-            choices.append((names, ctx.rng.random() < 0.5))
-    for names, recurse in choices:
+        choices = stale_choices(spec) if stale else gen_choices(rng, spec, snap, own_ctl, root, thorough)
+    for ch in choices:
+        names, recurse = list(ch[0]), bool(ch[1])
+        act = ch[2] if len(ch) > 2 else None
+        kind = ch[3] if len(ch) > 3 else "pinned"
         target = os.path.join(base, "Q")
         shutil.copytree(root, target, symlinks=True)
-        res = run_real(target, names, recurse)
+        viol = []
+        res = run_real(target, names, recurse, act)
         case = dict(spec=spec, names=names, recurse=recurse)
-        line = "add %s %s %s %s" % ("B" if fmt == "2a" else git_fmt_char(), "T" if recurse else "F",
-                                     ",".join(names), layout)
+        if act is not None:
+            case["action"] = act
+        # what the code makes of the names (links in the directory part resolved)
+        cnames = [canonical_name(root, n) for n in names]
+        if any(c is None for c in cnames):
+            shutil.rmtree(target)
+            continue                     # leaves the tree: PathNotChild, not this property
+        if cnames != names:
+            case["canonical_names"] = cnames
+        skip = skip_set(target, info, act, viol)
+        line = None
+        if not stale:
+            line = "add %s %s %s %s %s" % ("B" if fmt == "2a" else gitmode, "T" if recurse else "F",
+                                          ",".join(cnames), ",".join(sorted(skip)) or "-", layout)
+        ctl_named = [n for n in cnames if n == own_ctl or n.startswith(own_ctl + "/")]
+        names_ok = all(n == "." or n in info for n in cnames)
+        nontrivial = False
         if res == "ok":
             from breezy.workingtree import WorkingTree
             after = versioned_set(WorkingTree.open(target), snap, fmt)
@@ -389,66 +718,77 @@ def run_layout(ctx, spec, viol, cases, lines, outs, choices=None):
             # ---- oracle
             lost = before - after
             if lost:
-                viol.append((case, "paths no longer versioned after add: %r" % sorted(lost), None))
-            # idempotence (not proved, observed): the same call again versions nothing more
-            if run_real(target, names, recurse) == "ok":
+                viol.append(("paths no longer versioned after add: %r" % sorted(lost), None))
+            # idempotence (proved for the model, observed here): the same call again versions nothing more
+            again_res = run_real(target, names, recurse, act)
+            if again_res == "ok":
                 again = versioned_set(WorkingTree.open(target), snap, fmt)
                 if again != after:
-                    viol.append((case, "second identical add changed the versioned set: +%r -%r"
+                    viol.append(("second identical add changed the versioned set: +%r -%r"
                                  % (sorted(again - after), sorted(after - again)), None))
-            ctl_named = [n for n in names if n == own_ctl or n.startswith(own_ctl + "/")]
+            else:
+                viol.append(("second identical add raised %s" % again_res, None))
             if any(n in after for n in ctl_named):
                 # repaired in /repo (31d8912): a recurrence is a plain violation
-                viol.append((case, "control file(s) %r became versioned" % [n for n in ctl_named if n in after], None))
-            elif all(n == "." or n in info for n in names):
-                want = expected_by_statement(fmt, info, nroots, own_ctl, names, recurse, before)
+                viol.append(("control file(s) %r became versioned" % [n for n in ctl_named if n in after], None))
+            elif names_ok:
+                want = expected_by_statement(fmt, info, nroots, own_ctl, cnames, recurse, skip)
                 want_new = set(w for w in want if w not in before)
                 # entries that carry a control-directory name without being one (empty `.bzr`
                 # directory, `.bzr` file ...): the statement does not say; neither demanded nor refused
-                fake = [q for q in info if q.rsplit("/", 1)[-1] in (".bzr", ".git") and not info[q][4]
-                        and q not in names]
+                fake_all = [q for q in info if q.rsplit("/", 1)[-1] in (".bzr", ".git") and not info[q][4]]
+                fake = [q for q in fake_all if q not in cnames]
                 # bzr: a *versioned* directory holding a `.bzr` directory that is not a control
                 # directory is a tree reference for the tree itself (kind()) but not for find_format:
                 # whether its content belongs to this tree is not for the statement to say
-                fake += [x.rsplit("/", 1)[0] for x in list(fake)
+                fake += [x.rsplit("/", 1)[0] for x in fake_all
                          if fmt == "2a" and x.endswith("/.bzr") and info[x][1] == "d"
                          and x.rsplit("/", 1)[0] in before]
+                # a *named* directory the action skips: neither demanded nor refused
+                fake += [n for n in cnames if n in skip]
                 dontcare = set(q for q in info if any(under(x, q) for x in fake))
-                if new - want_new - dontcare:
-                    viol.append((case, "versioned although the statement excludes it: %r"
-                                 % sorted(new - want_new - dontcare), None))
+                extra = new - want_new - dontcare
+                if extra:
+                    fam = None
+                    if fmt == "git" and skip and all(any(under(sk, x) for sk in skip) for x in extra):
+                        fam = "git-smart-add-ignores-skip-file"
+                    viol.append(("versioned although the statement excludes it%s: %r"
+                                 % (" (the action's skip_file answers True)" if fam else "", sorted(extra)), fam))
                 if want_new - new - dontcare:
                     missing = sorted(want_new - new - dontcare)
-                    fam = None
-                    if fmt == "2a" and len(names) >= 2:
-                        # a named directory D below another named directory D0, with a nested tree or a
-                        # conflict helper on the way from D0 down to D (D excluded): _gather_dirs_to_add
-                        # drops D and the walk of D0 never reaches it
-                        for d in names:
-                            for d0 in names:
-                                if d == d0 or d == "." or not under("" if d0 == "." else d0, d):
-                                    continue
-                                d0p = "" if d0 == "." else d0
-                                way = [m for m in [d0p] + parents(d) if m != "" and under(d0p, m) and m != d]
-                                if any(m in nroots or info[m][5] for m in way) and all(under(d, x) for x in missing):
-                                    fam = "bzr-named-dir-below-blocked-named-dir"
-                    viol.append((case, "not versioned although the statement asks for it: %r" % missing, fam))
-            ctx.case(["add", fmt, layout, names, recurse],
-                     nontrivial=bool(new) and any(not r[2] and r[0] not in after for r in rows))
-            ctx.count("added:%d" % min(len(new), 6))
+                    viol.append(("not versioned although the statement asks for it: %r" % missing,
+                                 classify_missing(fmt, cnames, info, nroots, missing, stale, skip)))
+            nontrivial = bool(new) and any(not r[2] and r[0] not in after for r in rows)
+            counts["added:%d" % min(len(new), 6)] += 1
         else:
             out = res
-            ctx.case(["add", fmt, layout, names, recurse], nontrivial=False)
-            ctx.count(res)
-        ctx.count("names:%d" % len(names))
-        ctx.count("recurse:%s" % recurse)
-        cases.append(case)
-        lines.append(line)
-        outs.append(out)
+            counts[res] += 1
+            if res not in ("E:ForbiddenControlFile", "E:NoSuchFile") or (names_ok and not ctl_named):
+                fam = None
+                if fmt == "2a" and res == "E:NotADirectoryError" and any(how == "d2f" for _p, how in stale):
+                    fam = "bzr-stale-kind-listdir-crash"
+                viol.append(("smart_add raised %s although every named path exists and none is a control file"
+                             % res[2:], fam))
+        counts["names:%d" % min(len(names), 4)] += 1
+        counts["recurse:%s" % recurse] += 1
+        counts["kind:%s" % kind] += 1
+        if act is not None:
+            counts["action:%s:skips=%d" % (act[0], min(len(skip), 3))] += 1
+        records.append(dict(case=case, line=line, out=out, viol=viol, nontrivial=nontrivial,
+                            key=["add", fmt, layout, cnames, recurse, sorted(skip)]))
         shutil.rmtree(target)
-    ctx.count("fmt:" + fmt)
-    ctx.count("conflicts:%d" % len(spec.get("conflicts", [])))
+    counts["fmt:" + fmt] += 1
+    counts["conflicts:%d" % len(spec.get("conflicts", []))] += 1
     shutil.rmtree(base, ignore_errors=True)
+    return dict(records=records, counts=dict(counts), mism=mism)
+
+
+def run_layout_safe(job):
+    try:
+        return run_layout(job)
+    except Exception as e:      # noqa  (an exception object that cannot be unpickled would hang the pool)
+        import traceback
+        return dict(harness_error="%s: %s" % (type(e).__name__, traceback.format_exc()[-600:]), spec=job["spec"])
 
 
 def _sc(fmt, entries, rules=(), conflicts=()):
@@ -484,18 +824,43 @@ SCENARIOS = [
                 ["src-old/a", "f", False], ["src/src2", "d", False], ["src/src2/c", "f", False]]),
      [(["doc", "docs"], True), (["docs", "doc"], True), (["lib", "lib64"], True), (["lib64", "lib"], True),
       (["src", "src-old"], True), (["src-old", "src"], True), (["doc", "docs", "lib64"], True),
-      (["src", "src/src2"], True), (["doc", "docs"], False)]),
+      (["src", "src/src2"], True), (["doc", "docs"], False),
+      # an action that skips a versioned directory reached by the walk, and a file in another one
+      (["."], True, ["names", ["lib", "so"]]), (["lib64", "docs"], True, ["names", ["s", "so"]])]),
     (_sc("git", [["v", "f", True], ["doc", "d", False], ["doc/index.txt", "f", False], ["docs", "d", False],
                  ["docs/guide.txt", "f", False], ["lib", "d", False], ["lib/x", "f", True], ["lib/new", "f", False],
                  ["lib64", "d", False], ["lib64/so", "f", False]]),
      [(["doc", "docs"], True), (["docs", "doc"], True), (["lib", "lib64"], True), (["doc", "docs", "lib64"], True)]),
+    # three named directories nested in each other (the prev_dir rule), with and without a nested tree on the
+    # way; a name that sorts between a directory and its content; the size limit and a skipped directory
+    (dict(_sc("2a", [["v", "f", True], ["a", "d", False], ["a/b", "d", False], ["a/b/x", "f", False],
+                     ["a/b/c", "d", False], ["a/b/c/x", "f", False], ["a/c", "d", False], ["a/c/y", "f", False],
+                     ["a/z", "f", False], ["a-x", "d", False], ["a-x/y", "f", False],
+                     ["a/n", "d", False], ["a/n/.git", "G", False], ["a/n/d", "d", False], ["a/n/d/x", "f", False],
+                     ["a/n/e", "d", False], ["a/n/e/y", "f", False], ["big.bin", "f", False], ["a/big2", "f", False]]),
+           big=["big.bin", "a/big2"]),
+     [(["a", "a/b", "a/c"], True), (["a/c", "a", "a/b"], True), (["a", "a-x", "a/b"], True),
+      (["a", "a/b", "a/b/c"], True), (["a", "a/n/d", "a/n/e"], True), (["a/n/e", "a/n/d", "a"], True),
+      ([".", "a/n/d", "a/n/e", "a-x"], True), (["a", "a/n/d"], True), (["a/b", "a/b/c", "a/c"], False),
+      (["."], True, ["large", LIMIT]), (["a", "big.bin"], True, ["large", LIMIT]),
+      (["."], True, ["names", ["b", "y"]]), (["a", "a/b"], True, ["names", ["b"]]), (["a/b"], True, ["names", ["b", "x"]])]),
+    (dict(_sc("git", [["v", "f", True], ["a", "d", False], ["a/b", "d", False], ["a/b/x", "f", False],
+                      ["a/c", "d", False], ["a/c/y", "f", False], ["a/z", "f", False],
+                      ["a/n", "d", False], ["a/n/.git", "G", False], ["a/n/d", "d", False], ["a/n/d/x", "f", False],
+                      ["big.bin", "f", False]]),
+           big=["big.bin"]),
+     [(["a", "a/b", "a/c"], True), (["a", "a/n/d", "a/b"], True), (["."], True, ["large", LIMIT]),
+      (["."], True, ["names", ["b"]])]),
 ]
 
 
 def run(ctx):
-    viol, cases, lines, outs = [], [], [], []
-    specs = []
+    cases, lines, outs = [], [], []
+    c46._templates()                      # before the pool forks: one template tree per format for all workers
+    gitmode = git_fmt_char()
+    jobs = []
     pinned = [(spec, list(choices)) for spec, choices in SCENARIOS]
+    specs = []
     cdir = os.path.join(env.VERIF, "corpus", "C11")
     if os.path.isdir(cdir):
         import json
@@ -503,22 +868,62 @@ def run(ctx):
             if fn.endswith(".json"):
                 rec = json.load(open(os.path.join(cdir, fn)))
                 if rec.get("calls"):
-                    item = (rec["spec"], [(n, bool(r)) for n, r in rec["calls"]])
+                    item = (rec["spec"], [tuple(c) for c in rec["calls"]])
                     if not any(item[0] == p[0] for p in pinned):
                         pinned.insert(0, item)
                 else:
                     specs.append(rec["spec"])
     for spec, choices in pinned:
-        run_layout(ctx, spec, viol, cases, lines, outs, choices=choices)
-    ctx.extra["git_named_control_file"] = {"G": "versioned (as found)", "H": "refused"}[git_fmt_char()]
-    for _ in range(ctx.pick(5, 70)):
+        jobs.append(dict(spec=spec, choices=choices))
+    ctx.extra["git_named_control_file"] = {"G": "versioned (as found)", "H": "refused"}[gitmode[0]]
+    ctx.extra["git_calls_skip_file"] = gitmode.endswith("s")
+    for _ in range(ctx.pick(9, 70)):
         for fmt in ("2a", "git"):
             specs.append(add_conflicts_to_spec(ctx.rng, c46.gen_spec(ctx.rng, fmt)))
+    for _ in range(ctx.pick(1, 6)):
+        for fmt in ("2a", "git"):
+            for how in ("f2d", "d2f"):
+                specs.append(stale_spec(ctx.rng, fmt, how))
     for spec in specs:
-        run_layout(ctx, spec, viol, cases, lines, outs)
-    ctx.diff(cases, lines, outs)
+        jobs.append(dict(spec=spec))
+    for idx, job in enumerate(jobs):
+        job.update(seed=ctx.seed, idx=idx, gitmode=gitmode, thorough=ctx.thorough())
+    viol = []
+    nerr = 0
+    for res in ctx.pmap(run_layout_safe, jobs, chunksize=1):
+        if "harness_error" in res:
+            nerr += 1
+            ctx.count("harness-error:" + res["harness_error"].split(":")[0])
+            ctx.extra.setdefault("harness_errors", []).append(dict(spec=res["spec"], error=res["harness_error"][-400:]))
+            continue
+        for k, n in res["counts"].items():
+            ctx.count(k, n)
+        for case, impl, model, tie in res["mism"]:
+            ctx.mismatch(case, impl, model, tie=tie)
+        for rec in res["records"]:
+            ctx.case(rec["key"], nontrivial=rec["nontrivial"])
+            ridx = None
+            if rec["line"] is not None:
+                ridx = len(cases)
+                cases.append(rec["case"])
+                lines.append(rec["line"])
+                outs.append(rec["out"])
+            for what, fam in rec["viol"]:
+                viol.append((rec["case"], what, fam, ridx))
+    if nerr > max(1, len(jobs) // 10):
+        raise env.InfraError("too many layouts could not be built/run: %r" % ctx.extra["harness_errors"][:2])
+    replies = ctx.diff(cases, lines, outs) if ctx.model_available else None
     seen = set()
-    for case, what, fam in sorted(viol, key=lambda v: (v[2] is not None,)):
+    final = []
+    for case, what, fam, ridx in viol:
+        if fam is not None and replies is not None and ridx is not None and replies[ridx] != outs[ridx]:
+            # a family names a defect of the code as it was modelled: if the real result is not the model's
+            # result for this very call, this is something else - report it as a plain violation
+            what += " [the result also differs from the model of the code as it was: real %s / model %s]" % (
+                outs[ridx][:200], replies[ridx][:200])
+            fam = None
+        final.append((case, what, fam))
+    for case, what, fam in sorted(final, key=lambda v: (v[2] is not None,)):
         key = (fam, what) if fam is None else (fam,)
         if fam is not None:
             ctx.count("finding:" + fam)
@@ -534,10 +939,13 @@ def widen(ctx):
 
 
 def replay(ctx, case):
-    viol, cases, lines, outs = [], [], [], []
-    run_layout(ctx, case["spec"], viol, cases, lines, outs, choices=[(case["names"], case["recurse"])])
-    m = ctx.model(lines)[0]
-    for c, what, fam in viol:
-        ctx.violation(c, what, family=fam)
-    return dict(case=case, impl=outs[0], model=m, line=lines[0],
-                oracle_failures=[dict(what=w, family=f) for _c, w, f in viol])
+    c46._templates()
+    job = dict(spec=case["spec"], choices=[(case["names"], case["recurse"], case.get("action"))], seed=ctx.seed,
+               idx=0, gitmode=git_fmt_char(), thorough=False)
+    res = run_layout(job)
+    rec = res["records"][0]
+    m = ctx.model([rec["line"]])[0] if rec["line"] is not None else None
+    for what, fam in rec["viol"]:
+        ctx.violation(rec["case"], what, family=fam)
+    return dict(case=case, impl=rec["out"], model=m, line=rec["line"],
+                oracle_failures=[dict(what=w, family=f) for w, f in rec["viol"]])
